@@ -4,6 +4,10 @@ C19 — metadata updates handed between driver workers are neither lost nor dupl
 Models: `Model/MergeChannel.lean` (transition system over the atomic steps of `merge_channel.rs`, with the
 `tokio::sync::Notify` contract N1-N5 written out there) and `Model/MetaUpdate.lean` (`MetadataUpdate::merge_*`).
 The inductive invariant and its preservation by every action are in `Proofs/MergeChannel.lean`.
+`Model/RefreshFlow.lean` models the life of a refresh request across both workers (section "a requested refresh is
+answered"). Honest labels: `full_fetch_replaces_routes`, `client_routes_merge_cases` and `merge_fills_slot` are case
+splits that restate the definitions of `Model/MetaUpdate.lean` (they document the transcription; the evidence for
+them is the differential `slot` run).
 
 Every channel theorem is stated for `run init acts` with `acts : List Act` arbitrary: disabled actions stutter, so
 this is every interleaving of the producer's and the consumer's atomic steps (two OS threads under sequential
